@@ -480,6 +480,8 @@ impl WorldSpec {
     fn elems_rec(&self, t: &TSpec, out: &mut Vec<Elem>) {
         match t {
             TSpec::Leaf(l) => out.push(Elem::Leaf(*l)),
+            // an empty owned collection holds no lock: it cannot make any lock reachable twice
+            TSpec::Unit(u) if self.units[*u].leaves.is_empty() => {}
             TSpec::Unit(u) => out.push(Elem::Unit(*u)),
             TSpec::Coll { members, .. } => members.iter().for_each(|m| self.elems_rec(m, out)),
             TSpec::Shared(i) => self.elems_rec(&self.targets[*i], out),
